@@ -175,7 +175,10 @@ func (ch validatorCreateChange) dirtied() *common.Address {
 }
 
 func (ch validatorDeleteChange) revert(s *StateDB) {
+	// undo RemoveValidator: the record exists again and is counted again
+	ch.oldVal.deleted = false
 	s.setValidator(ch.oldVal)
+	s.incrValidatorsStat(ch.oldVal)
 }
 
 func (ch validatorDeleteChange) dirtied() *common.Address {
